@@ -2,7 +2,11 @@
 coq/theories/Props/C21.v.  K1 correspondence: the real class is driven with generated call
 trees (exhaustive small scopes + seeded random, re-entrant ones and falsy values included);
 Coq evaluates the Gallina model on the same trees (vm_compute) and compares the complete
-logs; an independent oracle states the property on the implementation's records."""
+logs; an independent oracle states the property on the implementation's records.
+Error payloads include a FALSY exception object (code 13, `__len__` returns 0); subscribers use four
+equivalent full forms (observer object / positional callbacks / keyword callbacks / reactivex Observer);
+an oracle-only family subscribes with PARTIAL callback forms (on_next only, ...: the library's default
+on_error raises) and compares with the same run made with observer objects."""
 import subj
 
 
